@@ -280,6 +280,20 @@ def run(ctx, rep):
         if f is None:
             raise AnalysisError("role anchor %s not found" % q)
         ids = request_ids(ctx, f.node)
+        if not ids:
+            # the request may have moved into a new private helper this function delegates to (a generator cannot be inlined)
+            known = set()
+            try:
+                from .. import inline as _INL
+                known = _INL.load_known() or set()
+            except Exception:
+                pass
+            for c_ in A.calls(f.node):
+                nm_ = A.call_name(c_)
+                if nm_ and "." not in nm_:
+                    r_ = ctx.repo.resolve_name(f.module, nm_)
+                    if r_ and r_[0] == "func" and r_[1].qual not in known:
+                        ids = ids + request_ids(ctx, r_[1].node)
         got = sorted({v for _, v, _ in ids if v is not None})
         ok = got == [want]
         rep.ob("R19.4", "role %s sends handler %d" % (role, want), ok,
